@@ -48,7 +48,19 @@ func H_C18_ReadOnly() {
 			nd.Cover("swept")
 		}
 	case 2:
-		k, _, err := keys_and_cert.ReadKeysAndCert(pinnedIdentity())
+		var k *keys_and_cert.KeysAndCert
+		var err error
+		if nd.Bool() {
+			k, _, err = keys_and_cert.ReadKeysAndCert(pinnedIdentity())
+		} else {
+			// a value assembled field by field (exported fields), with nil, empty or exact padding
+			p, _, perr := keys_and_cert.ReadKeysAndCert(pinnedIdentity())
+			if perr != nil {
+				return
+			}
+			pads := [][]byte{nil, {}, p.Padding}
+			k = &keys_and_cert.KeysAndCert{KeyCertificate: p.KeyCertificate, ReceivingPublic: p.ReceivingPublic, Padding: pads[nd.IntRange(0, 2)], SigningPublic: p.SigningPublic}
+		}
 		if err == nil {
 			i := nd.IntRange(0, n_sweepRO_keys_and_cert_KeysAndCert-1)
 			nd.Freeze()
@@ -105,7 +117,8 @@ func H_C18_ReadOnly() {
 			nd.Cover("swept")
 		}
 	case 8:
-		in, _ := lsShapes()[nd.IntRange(0, 2)].build()
+		shapes := append(lsShapes()[:3:3], lsShape{7, 0, 0, 2, 0}) // ... and two leases in any order of dates
+		in, _ := shapes[nd.IntRange(0, len(shapes)-1)].build()
 		v, err := lease_set.ReadLeaseSet(in)
 		if err == nil {
 			i := nd.IntRange(0, n_sweepRO_lease_set_LeaseSet-1)
